@@ -8,7 +8,7 @@ def first(*keys):
     for k in keys:
         if k in j: return j[k]
     return None
-files = first('coqproject_files', 'coqproject', 'coq_files', '_CoqProject') or []
+files = first('coqproject_files', 'coqproject_add_in_order', 'coqproject', 'coq_files', '_CoqProject') or []
 p = os.path.join(V, 'coq', '_CoqProject'); s = open(p).read().rstrip('\n').split('\n')
 props = [l for l in s if l.startswith('Props/')]
 others = [l for l in s if not l.startswith('Props/')]
@@ -27,7 +27,7 @@ m['checks'].sort(key=lambda c: c['property_id'])
 json.dump(m, open(os.path.join(V, 'MANIFEST.json'), 'w'), indent=1)
 k = json.load(open(os.path.join(V, 'known_findings.json')))
 ids = {f['id'] for f in k['findings']}
-for f in first('known_findings', 'findings') or []:
+for f in first('known_findings', 'known_findings_entries', 'findings') or []:
     if f['id'] in ids:
         k['findings'] = [x for x in k['findings'] if x['id'] != f['id']]
     k['findings'].append(f)
